@@ -16,7 +16,8 @@ RULE = ("Completed traced runs of both front ends: the shared end-to-end generat
         "Cholesky, P adding the count of |entries| > 2e-5 of the cluster's MRF for every maximal run of equal consecutive "
         "labels (for joint runs a run continuing across a series boundary may be read as one or two runs: both accepted), "
         "relative tolerance 1e-9 of the sum of absolute terms; the value must be finite whenever all MRFs are PD. "
-        "Non-trivial = >= 2 runs of labels and >= 2 clusters used; distinct by SHA-1 of the case.")
+        "Non-trivial = >= 2 runs of labels and >= 2 clusters used; distinct by SHA-1 of the case."
+        " S_k is the covariance cluster k was fitted to: the argument of the optimiser call that produced the stored Theta_k (recorded), normally identical to the state's record.")
 ASSUMPTIONS = ["final model state observed through the guarded run_end hook", "runs whose final MRFs are not PD are discarded here and decided by C03"]
 
 
@@ -26,12 +27,28 @@ def _wide():
 
 
 def execute(case, t):
-    tr = ce.traced_run(case, t, sync_pool=True, record_admm=False)
+    tr = ce.traced_run(case, t, sync_pool=True, record_admm=True)
     m = tr.end["model"]
     labels = m["labels"]
     K = case["K"]
     thetas = [np.atleast_2d(c["train_inverse"]) for c in m["clusters"]]
     covs = [np.atleast_2d(c["empirical_covariance"]) for c in m["clusters"]]
+    # "S_k, the empirical covariance cluster k was fitted to": the matrix the optimiser was actually given when it produced
+    # Theta_k (the latest optimiser call whose answer, floor applied, is the stored Theta_k) - normally the state's own record
+    from fast_ticc import matrix_compression
+    eps = float(case.get("eps") or 0)
+    calls = [c for q in reversed(tr.rounds) for c in reversed(q["admm"]) if "theta" in c]
+    for k in range(len(thetas)):
+        for c in calls:
+            th = matrix_compression.reinflate_matrix(np.array(c["theta"], copy=True))
+            if eps:
+                th = np.where(np.abs(th) >= eps, th, 0.0)
+            if th.shape == thetas[k].shape and np.array_equal(th, thetas[k]):
+                S_fit = np.atleast_2d(c["S"])
+                if S_fit.shape == covs[k].shape and not np.array_equal(S_fit, covs[k], equal_nan=True):
+                    t.cls("fitted_covariance_differs_from_the_states_record")
+                covs[k] = S_fit
+                break
     bic = tr.result.bayesian_information_criterion
     try:
         bic_f = float(bic)
